@@ -44,6 +44,8 @@ ASSUMPTIONS = [
     "part is non-empty (the literal reading of 'footprints whose in-domain part lies entirely within that "
     "region'); whether in-domain centres suffice is recorded as a class, not asserted",
     "solid = output value 1, void = output value 0 (the predicate is symmetric in the two phases)",
+    "the brush array must not exceed the design in either dimension (a 7x7 brush on a 6-wide design makes jax's "
+    "convolve2d raise inside dilate_jax); such combinations are not generated",
     "the per-case wall-clock guard (120 s quick / 300 s thorough, first call per configuration includes "
     "compilation) only yields 'inconclusive'; a hang would have to be confirmed by replaying the case",
 ]
@@ -139,7 +141,9 @@ def case_strategy(draw, ctx):
         size, diam, axis, bg = draw(st.sampled_from(QUICK_COMBOS))
     else:
         size = draw(st.sampled_from(SIZES))
-        diam = draw(st.sampled_from(DIAMETERS))
+        # the brush array (odd size >= diameter) must fit into the design: jax's convolve2d(mode="same") inside
+        # dilate_jax raises "One input must be smaller than the other in every dimension" otherwise
+        diam = draw(st.sampled_from([d for d in DIAMETERS if disk(d).shape[0] <= min(size)]))
         axis = draw(st.integers(0, 2))
         bg = draw(st.sampled_from(["default", "default", "explicit_low", "explicit_high"]))
     H, W = size
@@ -278,6 +282,7 @@ class _Server:
 
 _SERVER = _Server()
 _TIMEOUTS = [0]
+_DURATIONS: list = []
 
 
 def body(ctx, case):
@@ -290,14 +295,28 @@ def body(ctx, case):
     guard = 120.0 if ctx.tier == "quick" else 300.0
     _SERVER.ensure(ctx.lane)  # start-up (import of jax/fdtdx) is not charged to the per-case guard
     t0 = time.time()
-    resp = _SERVER.request(ctx.lane, {"shape3": shape3, "axis": axis, "diameter": case["diameter"], "bg": case["bg"],
-                                      "x": a.reshape(-1).tolist()}, guard)
+    req = {"shape3": shape3, "axis": axis, "diameter": case["diameter"], "bg": case["bg"], "x": a.reshape(-1).tolist()}
+    resp = _SERVER.request(ctx.lane, req, guard)
     if resp is None:
         _TIMEOUTS[0] += 1
         ctx.metric("guard_timeouts", _TIMEOUTS[0])
-        raise Skip()
+        # One guard expiry is inconclusive. The property says the constraint *terminates*: a reproducible hang is
+        # promoted to a violation only when (a) a second attempt in a fresh child with a 3x guard also expires and
+        # (b) the completed cases of this same run (same machine load) needed at most guard/20 each.
+        resp = _SERVER.request(ctx.lane, req, 3 * guard)
+        if resp is None:
+            _TIMEOUTS[0] += 1
+            ctx.metric("guard_timeouts", _TIMEOUTS[0])
+            done = sorted(_DURATIONS)
+            if len(done) >= 3 and done[-1] <= guard / 20.0:
+                ctx.nontrivial(True)
+                ctx.check(False, f"BrushConstraint2D did not terminate: two attempts exceeded {guard:.0f} s and "
+                                 f"{3 * guard:.0f} s while the {len(done)} completed cases of this run took at most "
+                                 f"{done[-1]:.1f} s each", observed="no result", expected="terminates")
+            raise Skip()
     ctx.metric("guard_timeouts", _TIMEOUTS[0])
     ctx.metric("seconds_per_case", time.time() - t0)
+    _DURATIONS.append(time.time() - t0)
     ctx.classify("size=%dx%d" % (H, W), "diameter=%g" % case["diameter"], "axis=%d" % axis, "bg=" + case["bg"],
                  "design=" + case["design"]["kind"])
     if not resp["ok"]:
